@@ -49,7 +49,10 @@ def render(t, uni, backend, style=None, md=None):
         if k == "Aggregate":
             return seqop(k, r(ch[0]), [r(ch[1]), "lambda %s, %s: %s" % (nm(t["a"]), nm(t["b"]), r(ch[2]))])
         if k in ("Coll", "Single"):
-            return "%s.%s(%r)" % (r(ch[0]), b["colls"][t["a"]]["py"], t["b"])
+            name = b["colls"][t["a"]]["py"]
+            if not name:
+                raise ValueError("backend %s has no collection %s" % (backend, t["a"]))
+            return "%s.%s(%r)" % (r(ch[0]), name, t["b"])
         if k == "Meth":
             return "%s.%s(%s)" % (r(ch[0]), t["a"], ", ".join(r(c) for c in ch[1:]))
         if k == "Range":
